@@ -12,7 +12,8 @@
 From Coq Require Import Reals List.
 From Coquelicot Require Import Coquelicot.
 From GV Require Import Common.Num Common.NumR Model.Forward Model.Mlcl Model.Backprop.
-From GV Require Import Proofs.RSumLib Proofs.GeminiDefs Proofs.Backprop.
+From GV Require Import Model.Douglas.
+From GV Require Import Proofs.RSumLib Proofs.GeminiDefs Proofs.Backprop Proofs.BackpropDouglas.
 Import ListNotations.
 Open Scope R_scope.
 
@@ -136,12 +137,9 @@ Theorem C03_douglas_leaf_direction_is_gradient : forall n F c K temp (Sc dS leaf
                          (softmax Rops K (matmul Rops ((c + 1) ^ F) leafm Sc)) g)) dS).
 Proof. exact douglas_leaf_direction_is_gradient. Qed.
 
-(* Douglas, cut points of one feature.  PARTIAL: the sort order of the cut points is held fixed along the
-   perturbation (it is locally constant when the cut points are pairwise distinct; that step — and the
-   identification of this function-style forward pass with Model/Douglas.v's list-style one — is not proved;
-   both are covered by the correspondence and the finite-difference oracle).  [rest] stands for the product of
-   the other features' bin memberships. *)
-Theorem C03_douglas_cut_direction_is_gradient_partial : forall n F c K f temp (Sc rest : mat) (x : nat -> R)
+(* Douglas, cut points of one feature, function-style forward pass with the sort order passed as a parameter and
+   held fixed (auxiliary: the next theorems remove both restrictions).  [rest] = product of the other features' bins. *)
+Theorem C03_douglas_cut_direction_is_gradient_fixed_order : forall n F c K f temp (Sc rest : mat) (x : nat -> R)
   (order : list nat) (cuts dc : nat -> R) (g : mat),
   (0 < K)%nat -> temp <> 0 -> is_order c order ->
   let B := (c + 1)%nat in let L := (B ^ F)%nat in
@@ -152,6 +150,47 @@ Theorem C03_douglas_cut_direction_is_gradient_partial : forall n F c K f temp (S
             (- inner_vec c (dg_cut_direction Rops n F c L K f temp Sc (leaff cuts) (binf cuts) order
                               (tau_hat Rops K (Yf cuts) g)) dc).
 Proof. exact douglas_cut_direction_is_gradient_fixed_order. Qed.
+
+(* the sort order of pairwise distinct cut points is locally constant: argsort (cuts + t dc) = argsort cuts near t = 0,
+   [argsort] being Model/Douglas.v's (the `order` returned by _leaf_binning) *)
+Theorem C03_douglas_argsort_locally_constant : forall (cuts : list R) (dc : nat -> R), NoDup cuts ->
+  locally 0 (fun t => argsort Rops (pert_cuts cuts dc t) = argsort Rops cuts).
+Proof. exact argsort_locally_constant. Qed.
+
+(* Douglas ON THE MODEL OF Model/Douglas.v (the list-style model the C15 correspondence runs): cpl = cut_points_list_,
+   every used feature with c cut points; the retained state handed to the backward pass is read off that model
+   (dgl_bins = _all_binnings, dgl_leaf = _leaf, dgl_orders = _all_orders, dgl_pred = _infer's result).
+   Adjoint identity with no structural hypothesis left (the leaf vector IS the Kronecker product, argsort IS a
+   permutation): *)
+Theorem C03_douglas_adjoint_list_model : forall n c K temp cpl (Sc X g dS : mat) (dcs : nat -> nat -> R),
+  temp <> 0 -> cpl <> [] -> uniform_cuts c cpl ->
+  let F := length cpl in
+  let grads := douglas_compute_grads Rops n F c K temp Sc (dgl_leaf temp cpl X) (dgl_bins temp cpl X) (dgl_orders cpl)
+                 (dgl_pred temp cpl K Sc X) g in
+  inner n K g (douglas_jvp F c K temp Sc (dgl_leaf temp cpl X) (dgl_bins temp cpl X) (dgl_orders cpl) (dgl_pred temp cpl K Sc X) dS dcs)
+  = - (inner ((c + 1) ^ F) K (fst grads) dS + rsum F (fun f => inner_vec c (snd grads f) (dcs f))).
+Proof. exact douglas_adjoint_list_model. Qed.
+
+(* leaf scores *)
+Theorem C03_douglas_leaf_direction_is_gradient_list_model : forall n c K temp cpl (Sc dS X g : mat),
+  (0 < K)%nat -> cpl <> [] -> uniform_cuts c cpl ->
+  let F := length cpl in
+  is_derive (fun t : R => inner n K g (dgl_pred temp cpl K (fun l k => Sc l k + t * dS l k) X)) 0
+            (- inner ((c + 1) ^ F) K
+                 (fst (douglas_compute_grads Rops n F c K temp Sc (dgl_leaf temp cpl X) (dgl_bins temp cpl X)
+                         (dgl_orders cpl) (dgl_pred temp cpl K Sc X) g)) dS).
+Proof. exact douglas_leaf_direction_is_gradient_list_model. Qed.
+
+(* cut points of used feature number f moved along dc, through the REAL forward pass (the sort is re-done at every t):
+   temperature > 0 and pairwise distinct cut points for the feature considered — nothing else (the bins are positive by
+   C15_bins_simplex, but the guarded division makes even that unnecessary) *)
+Theorem C03_douglas_cut_direction_is_gradient : forall n c K f temp cpl (Sc X g : mat) (dc : nat -> R),
+  (0 < K)%nat -> 0 < temp -> uniform_cuts c cpl -> (f < length cpl)%nat -> NoDup (snd (cpl_nth cpl f)) ->
+  let F := length cpl in let feat := fst (cpl_nth cpl f) in let cuts := snd (cpl_nth cpl f) in
+  is_derive (fun t : R => inner n K g (dgl_pred temp (set_nth f (feat, pert_cuts cuts dc t) cpl) K Sc X)) 0
+            (- inner_vec c (snd (douglas_compute_grads Rops n F c K temp Sc (dgl_leaf temp cpl X) (dgl_bins temp cpl X)
+                                   (dgl_orders cpl) (dgl_pred temp cpl K Sc X) g) f) dc).
+Proof. exact douglas_cut_direction_is_gradient. Qed.
 
 (* The genuine, not linearised, objective: if obj (the GEMINI) is differentiable at the predictions with gradient g
    along every differentiable curve through them, the direction is minus the gradient of obj o infer.  The
@@ -312,11 +351,13 @@ Example C03_nonvacuous :
                           mb1 := fun _ => /2; mb2 := fun _ => 0 |} in
    relu_off_kink 2 2 (preact 1 X th)) /\
   is_order 2 [1; 0]%nat /\ sym_on 2 (fun j l => INR (j + l)) /\ length [7; 3; 11]%nat = 3%nat /\
-  prefix_mlp_formula_violates_adjoint.
-Proof. exact nonvacuous_witness. Qed.
+  prefix_mlp_formula_violates_adjoint /\
+  (let cpl := [(0%nat, [2; 0]); (2%nat, [1; -1])] in
+   uniform_cuts 2 cpl /\ (1 < length cpl)%nat /\ NoDup (snd (cpl_nth cpl 1)) /\ argsort Rops (snd (cpl_nth cpl 0)) = [1; 0]%nat).
+Proof. exact nonvacuous_witness_c03. Qed.
 
 (* Print Assumptions costs ~2 s per real-analysis theorem (the whole Reals/Coquelicot closure is traversed each
-   time), so the 34 theorems over R are audited through one bundle naming every one of them; the 6 theorems
+   time), so the 38 theorems over R are audited through one bundle naming every one of them; the 6 theorems
    that hold in every number system are audited one by one and are closed under the global context. *)
 Definition C03_all_theorems_over_R :=
   (C03_softmax_is_normalised_exp,
@@ -338,7 +379,11 @@ Definition C03_all_theorems_over_R :=
    C03_sparse_mlp_direction_is_gradient,
    C03_categorical_direction_is_gradient,
    C03_douglas_leaf_direction_is_gradient,
-   C03_douglas_cut_direction_is_gradient_partial,
+   C03_douglas_cut_direction_is_gradient_fixed_order,
+   C03_douglas_argsort_locally_constant,
+   C03_douglas_adjoint_list_model,
+   C03_douglas_leaf_direction_is_gradient_list_model,
+   C03_douglas_cut_direction_is_gradient,
    C03_linear_objective_direction_is_gradient,
    C03_mlp_objective_direction_is_gradient,
    C03_decoration_preserves_differentiability,
